@@ -254,6 +254,7 @@ structure C14St where
   doomed : List Nat := []
   rinr : List (Nat × Bool) := []
   wcancelled : List Nat := []
+  errsent : List (Nat × Nat) := []         -- WaitExited call ↦ error sent on its error channel
 deriving Repr
 
 def removeOne (l : List (Option Nat)) (e : Option Nat) : Option (List (Option Nat)) :=
@@ -291,6 +292,7 @@ def monC14 : ObsMonitor Obs C14St where
                                    needS := ms.needS || ms.lastExit == some none }
     | .envCancel c => some { ms with retryDue := false, croots := c :: ms.croots }
     | .envCancelW a => some { ms with wcancelled := a :: ms.wcancelled }
+    | .envErr a e => some { ms with errsent := (a, e) :: ms.errsent }
     | .inv a op =>
       let quiet := match op with
         | .getState => true
@@ -319,7 +321,8 @@ def monC14 : ObsMonitor Obs C14St where
          (match e with
           | some 0 => some ms    -- context.Canceled: the caller's own context, or an instance cancelled before it entered
           | none => if fresh || (ms.rinr.find? (·.1 == a)).map (·.2) == some true then some ms else none
-          | some _ => if fresh then some ms else none)
+          -- an error other than context.Canceled: the result of an instance, or what was sent on the error channel
+          | some e' => if fresh || ms.errsent.contains (a, e') then some ms else none)
        | r =>
          let snap := lookupSnap ms.snaps a
          let sup := match r with
@@ -535,6 +538,51 @@ def monC05l : ObsMonitor Obs C05lSt where
                ctxR := c, fnR := f, svR := v }
       | _, _, _ => none
     else none
+
+/-! ## C05g — the stored-state comparison at quiescence alone -/
+
+structure C05gSt where
+  cfg : Cfg := {}
+  info : List (Nat × Nat × Nat × Nat) := []     -- entry ↦ (f, arg, root)
+  gotState : Option Nat := none
+  spend : List Nat := []
+  sepoch : Nat := 0
+  gsAt : List (Nat × Nat) := []
+deriving Repr
+
+def Op.isChanger : Op → Bool
+  | .setState _ | .swap _ => true
+  | _ => false
+
+/-- last part of the quiescence clause of `monC05` alone (state variant): the single executing instance with a
+live context at a quiescence line was given the state that GetState returned, if a GetState call overlapped no
+SetState / SwapValue call and none has been invoked since. Proved to accept every model trace (`Props.C05g_obs`). -/
+def monC05g : ObsMonitor Obs C05gSt where
+  init := {}
+  step := fun ms o =>
+    match o with
+    | .cfg c => some { ms with cfg := c }
+    | .cbin k f arg root => some { ms with info := (k, f, arg, root) :: ms.info }
+    | .inv a op =>
+      if op.isChanger then some { ms with gotState := none, spend := a :: ms.spend, sepoch := ms.sepoch + 1 }
+      else (match op with
+            | .getState => some { ms with gsAt := (a, ms.sepoch) :: ms.gsAt }
+            | _ => some ms)
+    | .ret a r =>
+      (match r with
+       | .setS _ _ _ _ => some { ms with gotState := none, spend := ms.spend.filter (· != a), sepoch := ms.sepoch + 1 }
+       | .swapR _ _ _ _ _ => some { ms with gotState := none, spend := ms.spend.filter (· != a), sepoch := ms.sepoch + 1 }
+       | .state v => some { ms with gotState := if ms.spend.isEmpty && (ms.gsAt.find? (·.1 == a)).map (·.2) == some ms.sepoch
+                                                then some v else none }
+       | _ => some ms)
+    | .quiesce _ _ [k] =>
+      (match lookupInfo ms.info k with
+       | some (_, arg, _) =>
+         if !ms.cfg.state || (match ms.gotState with
+                              | some v => v == arg
+                              | none => true) then some ms else none
+       | none => some ms)
+    | _ => some ms
 
 /-! ## C05a — the first sentence of C05 alone -/
 
